@@ -7,18 +7,20 @@ import numpy as np
 from ropt.results import FunctionResults, Results
 
 
-def _get_new_optimal_result(
+def _is_new_optimal_result(
     optimal_result: FunctionResults | None, results: FunctionResults
-) -> FunctionResults | None:
-    if optimal_result is None:
-        return results
-    assert optimal_result.functions is not None
+) -> bool:
+    # The results passed here must be in the optimizer domain, since that is
+    # the domain where the objective is minimized:
     assert results.functions is not None
-    optimal = optimal_result.functions.weighted_objective
     objective = results.functions.weighted_objective
-    if objective < optimal:
-        return results
-    return None
+    if np.isnan(objective):
+        return False
+    if optimal_result is None:
+        return True
+    assert optimal_result.functions is not None
+    optimal = optimal_result.functions.weighted_objective
+    return bool(np.isnan(optimal) or objective < optimal)
 
 
 def _violates_constraint(results: Results, tolerance: float | None) -> bool:
@@ -62,12 +64,14 @@ def _get_last_result(
 
 
 def _update_optimal_result(
-    optimal_result: FunctionResults | None,
+    optimal_result: tuple[FunctionResults, FunctionResults] | None,
     results: tuple[Results, ...],
     transformed_results: tuple[Results, ...],
     constraint_tolerance: float | None,
-) -> FunctionResults | None:
-    return_result: FunctionResults | None = None
+) -> tuple[FunctionResults, FunctionResults] | None:
+    # The optimal result is a pair: the result itself, and the corresponding
+    # result in the optimizer domain, which is used for comparing objectives.
+    return_result: tuple[FunctionResults, FunctionResults] | None = None
     for item, transformed_item in zip(results, transformed_results, strict=False):
         if (
             isinstance(transformed_item, FunctionResults)
@@ -75,8 +79,10 @@ def _update_optimal_result(
             and not _violates_constraint(transformed_item, constraint_tolerance)
         ):
             assert isinstance(item, FunctionResults)
-            new_optimal_result = _get_new_optimal_result(optimal_result, item)
-            if new_optimal_result is not None:
-                optimal_result = new_optimal_result
-                return_result = new_optimal_result
+            if _is_new_optimal_result(
+                None if optimal_result is None else optimal_result[1],
+                transformed_item,
+            ):
+                optimal_result = (item, transformed_item)
+                return_result = optimal_result
     return return_result
